@@ -38,12 +38,12 @@ class NumberType(Type):
             if self.dtype in [int,float]:
                 other.convert(self.unit)
             other.value = self._cast(self.dtype, other.value)
-        elif type(self)==type(other):
-            # if both datatypes are known
+        elif type(self)==type(other) or (self.dtype in [int,float] and other.dtype in [int,float]):
+            # if both datatypes are known (an integer and a float are both numbers)
             if self.dtype in [int,float]:
                 self.convert(other.unit)
-        else:                               # throw error if both datatypes are unknown
-            raise Exception("Invalid comparison:", expr)
+        else:                               # throw error if the datatypes cannot be compared
+            raise Exception("Invalid comparison:", self, other)
         return self.value, other.value
             
     def __eq__(self, other):
